@@ -11,12 +11,14 @@ const L_PRELUDE: &str = "f = |a, b = 0, c = 0, d = 0, e = 0| (a, b, c, d, e)\nms
 /// classes the unchanged tree (/repo at e003922) does not accept
 const LAYOUT_NOT_ACCEPTED: &[(&str, &str)] = &[
     ("closer:index", "consume_index_expression parses with a restricted context: no line break inside `l[…]` (not a documented layout)"),
+    ("match-pos:closer-after-last-arm", "F-C10-11: a token that follows the last arm on its line is taken for another arm"),
 ];
 
 #[derive(Clone, Copy, PartialEq)]
 enum LOracle {
     Full,       // erased Ast + behaviour
     AcceptOnly, // `debug`: the recorded expression text and line number legitimately differ
+    Behaviour,  // the one-line form goes through a temporary: only acceptance and behaviour are compared
 }
 
 fn ind(n: usize) -> String {
@@ -46,6 +48,15 @@ impl Ctx {
         let verdict = if oracle == LOracle::AcceptOnly {
             match parse_real(var) {
                 Ok(Ok(_)) => Verdict::Fine,
+                Ok(Err((i, m))) => Verdict::Rejected(i, m),
+                Err(p) => Verdict::Panic(p),
+            }
+        } else if oracle == LOracle::Behaviour {
+            match parse_real(var) {
+                Ok(Ok(_)) => {
+                    let b = behaviour(var);
+                    if b == bobs.beh { Verdict::Fine } else { Verdict::BehaviourDiffers(b, bobs.beh.clone()) }
+                }
                 Ok(Err((i, m))) => Verdict::Rejected(i, m),
                 Err(p) => Verdict::Panic(p),
             }
@@ -105,6 +116,7 @@ impl Ctx {
             self.keyword_values(rng, round, &mut m);
             self.map_key_forms(rng, &mut m);
             self.tuple_bodies(rng, &mut m);
+            self.match_switch_positions(rng, &mut m);
         }
         if let Some(m) = m {
             for (k, (tot, ok, sample)) in &m {
@@ -474,6 +486,69 @@ impl Ctx {
             let base = format!("n = 3\n{}{}", block, uses);
             let var = format!("n = 3\n{}{}", inline, uses);
             self.layout_check(&format!("tuple-body:{}:branch={}", class, if a == 0 { "then" } else { "else" }), &base, &var, LOracle::Full, m);
+        }
+    }
+}
+
+// ---- (F) block match / switch wherever an expression may stand (shape of F-C10-6, fixed in 1846795) --
+
+impl Ctx {
+    fn match_switch_positions(&mut self, rng: &mut Rng, m: &mut Option<std::collections::BTreeMap<String, (u64, u64, String)>>) {
+        let prelude = "f = |v, w = 0| (v, w)\ny = 1\nn = 3\n";
+        for is_match in [true, false] {
+            let sel = rng.below(3);
+            let narms = 1 + rng.below(3);
+            let with_else = rng.chance(2, 3);
+            // the arms, relative to indentation `ai`
+            let arms = |ai: usize| -> String {
+                let mut s = String::new();
+                for a in 0..narms {
+                    let head = if is_match { format!("{} then", a) } else { format!("{} == {} then", sel, a) };
+                    if (a + sel) % 2 == 0 {
+                        s.push_str(&format!("\n{}{} {}", ind(ai), head, 10 + a));
+                    } else {
+                        s.push_str(&format!("\n{}{}\n{}{}", ind(ai), head, ind(ai + 2), 10 + a));
+                    }
+                }
+                if with_else {
+                    s.push_str(&format!("\n{}else 99", ind(ai)));
+                }
+                s
+            };
+            let head = if is_match { format!("match {}", sel) } else { "switch".to_string() };
+            let base = format!("{}t = {}{}\nPOS\nprint x\nprint n\n", prelude, head, arms(2));
+            // (position, one-line use of the temporary, layout with the block in place)
+            let ci = *rng.pick(&[2usize, 4]);
+            let positions: Vec<(&str, String, String)> = vec![
+                ("parens:closer-own-line", "x = (t)".into(), format!("x = ({}{}\n)", head, arms(2))),
+                ("parens:closer-own-line-deeper", "x = (t)".into(), format!("x = ({}{}\n    )", head, arms(2))),
+                ("closer-after-last-arm:parens", "x = (t)".into(), format!("x = ({}{})", head, arms(2))),
+                ("list:own-lines", "x = [t]".into(), format!("x = [\n{}{}{}\n]", ind(ci), head, arms(ci + 2))),
+                ("list:second-element", "x = [7, t]".into(), format!("x = [\n{}7,\n{}{}{}\n]", ind(ci), ind(ci), head, arms(ci + 2))),
+                ("tuple:own-lines", "x = (7, t)".into(), format!("x = (\n{}7,\n{}{}{}\n)", ind(ci), ind(ci), head, arms(ci + 2))),
+                ("map-value", "x = {k: t}".into(), format!("x = {{\n{}k: {}{}\n}}", ind(ci), head, arms(ci + 2))),
+                ("call-parens:on-opener-line", "x = f(t)".into(), format!("x = f({}{}\n)", head, arms(2))),
+                ("call-parens:own-line", "x = f(t)".into(), format!("x = f(\n{}{}{}\n)", ind(ci), head, arms(ci + 2))),
+                ("closer-after-last-arm:call-parens", "x = f(t)".into(), format!("x = f({}{})", head, arms(2))),
+                ("call-parens:second-argument", "x = f(7, t)".into(), format!("x = f(7,\n{}{}{}\n)", ind(ci), head, arms(ci + 2))),
+                ("paren-free-arg:on-call-line", "x = f t".into(), format!("x = f {}{}", head, arms(2))),
+                ("paren-free-arg:own-line", "x = f t".into(), format!("x = f\n{}{}{}", ind(ci), head, arms(ci + 2))),
+                ("paren-free-arg:second-own-line", "x = f 7, t".into(), format!("x = f 7,\n{}{}{}", ind(ci), head, arms(ci + 2))),
+                ("operand:continuation-line", "x = 1 + t".into(), format!("x = 1 +\n{}{}{}", ind(ci), head, arms(ci + 2))),
+                ("operand:same-line", "x = 1 + t".into(), format!("x = 1 + {}{}", head, arms(2))),
+                ("after-assign:next-line", "x = t".into(), format!("x =\n{}{}{}", ind(ci), head, arms(ci + 2))),
+                ("return-value:next-line", "g = ||\n  return t\nx = g()".into(), format!("g = ||\n  return\n    {}{}\nx = g()", head, arms(6))),
+            ];
+            for (pos, one, block) in positions {
+                // with an else arm the value never is null + 1
+                if pos.starts_with("operand") && !with_else {
+                    continue;
+                }
+                let b = base.replace("POS", &one);
+                let v = format!("{}t = 0\n{}\nprint x\nprint n\n", prelude, block);
+                let b = b.replace(&format!("t = {}", head), &format!("t = 0\nt = {}", head));
+                self.layout_check(&format!("match-pos:{}:{}", pos, if is_match { "match" } else { "switch" }), &b, &v, LOracle::Behaviour, m);
+            }
         }
     }
 }
